@@ -65,6 +65,13 @@ def expiryNext (s : State) : ExpRes :=
   | some none => .noop
   | some (some n) => match State.ofNat? n with | some t => .to t | none => .err
 
+/-- reading of the regenerated call lists: `a` is called, `b` is called afterwards and never before the first
+`a` (further calls – helpers that were inlined, logging, look-ups – do not matter) -/
+def callsBefore (l : List String) (a b : String) : Bool :=
+  match l.dropWhile (· != a) with
+  | [] => false
+  | _ :: t => t.contains b && !(l.takeWhile (· != a)).contains b
+
 /-- ordered significant calls of the `resumeAccount` clause of a state; `none` = `default:` error. -/
 def resumeActs (s : State) : Option (List String) := Lifecycle.resume.lookup s.toNat
 
@@ -358,7 +365,7 @@ inductive FundRes where
 recovery), or create it with `SendOutputs`; on recovery an unknown funding transaction is never re-created. -/
 def fundOrLocate (s : AState) (a : Acct) (onRestart onRecovery feeOk : Bool) (fundTx : Option (Nat × Nat))
     (acts : List String) : FundRes :=
-  let look := (onRestart || onRecovery) && acts.contains "[onRestart || onRecovery]locateTxByOutput"
+  let look := (onRestart || onRecovery) && acts.contains "[onRecovery || onRestart]locateTxByOutput"
   let located : Option Tx := if look then locateTxByOutput s.wallet (a.out s.key) a.latestTx else none
   -- the stored / reported latest transaction is tried first; only then the wallet is asked, and any error
   -- other than "not found" aborts (`default: return fmt.Errorf("unable to locate output …")`)
